@@ -247,10 +247,17 @@ where
             }
         }
     }
+    // in a fifth of the tables the states have different lengths (trans-dimensional moves: the
+    // candidate replaces the state whatever its length)
+    let vardim = g.chance(0.2);
+    if vardim {
+        rep.count("tables_with_states_of_different_lengths");
+    }
     let states: Vec<Vec<S>> = (0..k)
         .map(|i| {
             let mut v = vec![S::from_index(i)];
-            for _ in 1..dim {
+            let di = if vardim { 1 + (i + g.below(3)) % 4 } else { dim };
+            for _ in 1..di {
                 v.push(S::weird(g.next_u64()));
             }
             v
